@@ -123,6 +123,36 @@ func gen(r *hx.Rng, n int, tier string) []string {
 	for i := 0; i < nEntry; i++ {
 		ops = append(ops, genSeq(r, "entry"))
 	}
+	// index sets that only differ in indexes >= 64 (same low-64-bit bitmap), one after the other
+	for i := 0; i < 2; i++ {
+		k := r.Range(2, 4)
+		coefs := make([]*big.Int, k)
+		for j := range coefs {
+			coefs[j] = randScalar(r)
+		}
+		m := randScalar(r)
+		base := pickIndices(r, k-1)
+		for j := range base {
+			base[j] = base[j]%63 + 1
+		}
+		seen := map[int64]bool{}
+		var low []int64
+		for _, v := range base {
+			if !seen[v] {
+				seen[v] = true
+				low = append(low, v)
+			}
+		}
+		hi1, hi2 := int64(64+r.Intn(3)), int64(67+r.Intn(200))
+		A := append(append([]int64(nil), low...), hi1)
+		B := append(append([]int64(nil), low...), hi2)
+		C := append(append([]int64(nil), low...), hi1%64+ 0)
+		steps := []string{stepFor(r, A, coefs[:len(A)], m, false), stepFor(r, B, coefs[:len(A)], m, false)}
+		if C[len(C)-1] != 0 && !seen[C[len(C)-1]] {
+			steps = append(steps, stepFor(r, C, coefs[:len(A)], m, false))
+		}
+		ops = append(ops, "recseq "+joinBig(coefs[:len(A)])+" "+m.String()+" "+strings.Join(steps, " "))
+	}
 	for i := 0; i < nGjkr; i++ {
 		ops = append(ops, genSeq(r, "gjkr"))
 	}
